@@ -4,6 +4,7 @@
 -/
 import BespokeVerif.Model.Macro
 import BespokeVerif.Lemmas.Macro
+import BespokeVerif.Lemmas.StmtSize
 namespace BV.C10
 open BV
 
@@ -34,6 +35,45 @@ theorem macro_size (regs : List String) (gz : Int × Int) (env : String → Opti
   · rw [hbs, foldl_lengths_eq]
   · have := specGo_length regs gz env tbl addr steps [] bss hs
     simpa using this
+
+/-- … and that many bytes were already reserved when addresses were assigned: the sizes of the steps
+    are known from variant selection alone (`stepSizes` evaluates no expression and takes no address),
+    so the labels after the invocation are placed accordingly whatever the operands evaluate to -/
+theorem macro_reserved_eq_emitted (regs : List String) (gz : Int × Int) (env : String → Option Int) (tbl : InstrTable)
+    (addr : Int) (mvs : List MacroVariant) (fs : List Form) (i : Nat) (bs : List Nat)
+    (h : assembleMacro regs gz env tbl addr mvs fs = .ok (i, bs)) :
+    ∃ steps sizes, expandMacro regs gz mvs fs = .ok (i, steps) ∧ stepSizes regs gz tbl steps = some sizes ∧
+      bs.length = sizes.sum := by
+  unfold assembleMacro at h
+  cases he : expandMacro regs gz mvs fs with
+  | error e => simp [he, bind, Except.bind] at h
+  | ok r =>
+    rcases r with ⟨j, steps⟩
+    simp only [he, bind, Except.bind] at h
+    cases hs : assembleSteps regs gz env tbl addr steps with
+    | error e => simp [hs] at h
+    | ok b =>
+      simp only [hs, Except.ok.injEq, Prod.mk.injEq] at h
+      obtain ⟨rfl, rfl⟩ := h
+      obtain ⟨sizes, hsz, hsum⟩ := assembleSteps_length hs
+      exact ⟨steps, sizes, rfl, hsz, hsum⟩
+
+/-- the reserved size does not depend on the label environment or the address: two assemblies of
+    the same invocation (first pass with unknown forward labels, second pass with the final values;
+    or the same macro at another address) emit the same number of bytes -/
+theorem macro_size_env_independent (regs : List String) (gz : Int × Int) (env env' : String → Option Int)
+    (tbl : InstrTable) (addr addr' : Int) (mvs : List MacroVariant) (fs : List Form) (i i' : Nat) (bs bs' : List Nat)
+    (h : assembleMacro regs gz env tbl addr mvs fs = .ok (i, bs))
+    (h' : assembleMacro regs gz env' tbl addr' mvs fs = .ok (i', bs')) :
+    bs.length = bs'.length ∧ i = i' := by
+  obtain ⟨steps, sizes, he, hs, hl⟩ := macro_reserved_eq_emitted regs gz env tbl addr mvs fs i bs h
+  obtain ⟨steps', sizes', he', hs', hl'⟩ := macro_reserved_eq_emitted regs gz env' tbl addr' mvs fs i' bs' h'
+  rw [he] at he'
+  simp only [Except.ok.injEq, Prod.mk.injEq] at he'
+  obtain ⟨rfl, rfl⟩ := he'
+  rw [hs] at hs'
+  cases hs'
+  exact ⟨by rw [hl, hl'], rfl⟩
 
 /-- steps are assembled in order: the first step of a macro is assembled at the macro's address,
     and the remaining steps behind it -/
